@@ -137,6 +137,7 @@ def main(argv=None):
     ap.add_argument('--jobs', type=int, default=int(os.environ.get('PYVC_JOBS', '16')))
     ap.add_argument('-v', action='store_true')
     ap.add_argument('--no-evidence', action='store_true')
+    ap.add_argument('--no-replay', action='store_true', help='do not replay counter-models on the real code (mutation sweeps)')
     ap.add_argument('--failures', action='store_true', help='list every failing obligation with its path (development)')
     a = ap.parse_args(argv)
     t0 = time.time()
@@ -157,7 +158,7 @@ def main(argv=None):
                 continue
             if getattr(s, 'thorough_only', False) and tier != 'thorough':
                 continue
-            if a.fuc and not fnmatch.fnmatch(s.ident, a.fuc):
+            if a.fuc and not any(s.ident == g or fnmatch.fnmatch(s.ident, g) for g in a.fuc.split(',,')):
                 continue
             jobs.append((modname, i, opts))
     if not jobs:
@@ -234,7 +235,10 @@ def main(argv=None):
             continue
         reported.add(ob['name'])
         nviol += 1
-        path, repro, out = do_replay(a.prop, modname, idx, ob, replay_dir)
+        if a.no_replay:
+            path, repro, out = '-', (None if ob['verdict'] != 'candidate' else False), ''
+        else:
+            path, repro, out = do_replay(a.prop, modname, idx, ob, replay_dir)
         if ob['verdict'] == 'candidate' and not repro:
             # the counter-model came from a relaxed query and does not replay: the obligation is undecided
             undecided.append('%s: unknown (relaxed candidate model did not replay): %s [%s]' % (a.prop, ob['name'], ob['path']))
@@ -246,6 +250,30 @@ def main(argv=None):
             print('  replayed on the real code: reproduced\n  ' + out.strip().replace('\n', '\n  ')[-600:])
         print('VIOLATION property=%s replay=%s%s' % (a.prop, path, tail))
         code = 1
+    battery_note = None
+    if (errors or undecided) and code == 0 and not a.no_replay:
+        # some function left the verifier's reach (unsupported construct, state the contract does not know, solver gave up):
+        # the property's replay battery runs on the real code as a BOUNDED stand-in.  A reproduced violation is reported with the
+        # undecided obligations named in the replay file; a clean battery leaves the verdict undecided (never a pass).
+        battery = os.path.join(HERE, 'replay', 'battery_%s.py' % a.prop)
+        if os.path.exists(battery):
+            os.makedirs(replay_dir, exist_ok=True)
+            path = os.path.join(replay_dir, '%s__undecided__battery.py' % a.prop)
+            header = ''.join('# undecided: %s\n' % ' '.join(str(u).split())[:300] for u in (undecided + errors)[:12])
+            with open(path, 'w') as f:
+                f.write('# bounded stand-in for obligations the verifier could not decide on this tree\n' + header + open(battery).read())
+            try:
+                p = subprocess.run([REPLAY_PY, path], capture_output=True, text=True, timeout=600, cwd=contract.REPO,
+                                   env=dict(os.environ, PYTHONPATH=contract.REPO))
+                battery_note = 'battery_%s.py (bounded): exit %d' % (a.prop, p.returncode)
+                if p.returncode == 1 and 'REPRODUCED' in p.stdout:
+                    print('undecided obligations; the bounded replay battery reproduced a violation on the real code:\n  '
+                          + p.stdout.strip().replace('\n', '\n  ')[-700:])
+                    print('VIOLATION property=%s replay=%s' % (a.prop, path))
+                    code = 1
+                    nviol += 1
+            except Exception as e:
+                battery_note = 'battery failed to run: %r' % (e,)
     if errors:
         for e in errors[:20]:
             print('CHECKER-ERROR:', e)
@@ -281,7 +309,7 @@ def main(argv=None):
             'bounded_standins': bounded + entry.get('bounded', []),
             'not_decided': entry.get('not_decided', []),
             'known_findings_matched': sorted(seen_known),
-            'undecided': undecided[:50], 'checker_errors': errors[:20],
+            'undecided': undecided[:50], 'checker_errors': errors[:20], 'undecided_fallback': battery_note,
         },
         'assumptions': ASSUMPTIONS + entry.get('assumptions', []),
     }
